@@ -22,11 +22,17 @@ IsEv(e) == l <= Len(Trace) /\ Trace[l].ev = e
 
 \* rule-level classification
 BodyClass(b) == CASE b \in {"", "*", "b", "n"} -> "accept"      \* none, whole message, message fields
-                  [] b \in {"zz", "s.x", "b.zz"} -> "reject"     \* unknown field, path through a scalar
+                  \* unknown field, path through a scalar, through a map (its entry is not a message of the API)
+                  \* or through a repeated field
+                  [] b \in {"zz", "s.x", "b.zz", "mp.value", "mp.key", "rn.s", "r.x"} -> "reject"
                   [] OTHER -> "unspecified"                       \* scalar / repeated / map as body
 RespClass(r) == CASE r \in {"", "sub", "echo", "echo.n"} -> "accept"
-                  [] r \in {"zz", "id.x", "sub.zz"} -> "reject"
+                  [] r \in {"zz", "id.x", "sub.zz", "echo.mp.value", "echo.rn.s"} -> "reject"
                   [] OTHER -> "unspecified"
+\* the field path of the template variable
+VarClass(v) == CASE v \in {"", "n.s", "b.s", "n.deep.s"} -> "accept"
+                 [] v \in {"zz", "s.x", "n.zz", "mp.value", "mp.key", "rn.s", "r.x"} -> "reject"
+                 [] OTHER -> "unspecified"                         \* message-, repeated- or map-typed variables
 ConflictClass(c) == CASE c = "none" -> "accept"
                       [] c = "same" -> "reject"                   \* same kind and template as another method's binding
                       \* a valid binding next to an existing route followed by an invalid additional binding
@@ -34,7 +40,7 @@ ConflictClass(c) == CASE c = "none" -> "accept"
                       [] OTHER -> "unspecified"                   \* '*'-kind overlaps, same node via another field name,
                                                                   \* re-declaring an implicit path: no crash, otherwise free
 RuleClass(e) ==
-  LET cs == {BodyClass(e.body), RespClass(e.resp), ConflictClass(e.conflict),
+  LET cs == {BodyClass(e.body), RespClass(e.resp), ConflictClass(e.conflict), VarClass(e.varfp),
              IF e.nested THEN "reject" ELSE "accept"} IN
   IF ConflictClass(e.conflict) = "unspecified" THEN "unspecified"   \* what becomes of the rest of an overlapping rule is free
   ELSE IF "reject" \in cs THEN "reject"
